@@ -1,4 +1,5 @@
 import DimodModel.Fix
+import DimodModel.EnergyVars
 import DimodModel.Wire
 open Wire En
 
@@ -248,6 +249,21 @@ def lbStep (d : LBqm Rat) (view : VT) (old : Bool) (op : List String) : LBqm Rat
     | some x => (d, "ok " ++ showRat (View.sampleMap T view d x)) | none => bad
   | _ => bad
 
+/-- sparse `Variables` state: `stop|idx=label,…|label=idx,…` -/
+def parseVState (s : String) : Option VState :=
+  match s.splitOn "|" with
+  | [stop, a, b] => do
+    let i2l ← (splitTok a ",").mapM fun kv =>
+      match kv.splitOn "=" with
+      | [k, v] => do pure ((← k.toNat?), (← parseLabel? v))
+      | _ => none
+    let l2i ← (splitTok b ",").mapM fun kv =>
+      match kv.splitOn "=" with
+      | [k, v] => do pure ((← parseLabel? k), (← v.toNat?))
+      | _ => none
+    pure { i2l, l2i, stop := (← stop.toNat?) }
+  | _ => none
+
 def dqmOf (cl ca st va off : String) : Option (Dqm Rat) := do
   pure { bqm := { lin := (← parseRats cl), adj := (← parseAdj ca), off := 0 }, starts := (← parseNats st),
          adj := (← parseNatRows va), off := (← parseRat? off) }
@@ -296,6 +312,9 @@ def step (d : LBqm Rat) (line : String) : LBqm Rat × String :=
   | ["cyenergies", l, a, o, ml, rows, sl] => pure1 do
       let m ← parseQMB l a o
       pure (showExcept (cyEnergies m (← parseLabels ml) (← parseRows rows) (← parseLabels sl)))
+  | ["cyenergiesv", l, a, o, mv, rows, sv] => pure1 do
+      let m ← parseQMB l a o
+      pure (showExcept (cyEnergiesV m (← parseVState mv) (← parseRows rows) (← parseVState sv)))
   | ["exprenergies", e, pl, rows, sl] => pure1 do
       pure (showExcept (exprEnergies (← parseExpr e) (← parseLabels pl) (← parseRows rows) (← parseLabels sl)))
   | ["exprenergies_old", e, pl, rows, sl] => pure1 do
@@ -366,6 +385,10 @@ def step (d : LBqm Rat) (line : String) : LBqm Rat × String :=
       let s : SSet Rat := { vt := (← vt? vt), rows := (← parseRows rows), energy := (← parseRats en) }
       let r := s.changeVartype (← vt? target) (← parseRat? off)
       pure s!"{showVT r.vt} {showRows r.rows} {showRats r.energy}"
+  | ["fromising", h, j, off] => pure1 do
+      pure (showLBqm (LBqm.fromIsing (← parseItems h) (← parsePairItems j) (← parseRat? off)))
+  | ["fromqubo", q, off] => pure1 do
+      pure (showLBqm (LBqm.fromQubo (← parsePairItems q) (← parseRat? off)))
   | ["isingtoqubo", h, j, off] => pure1 do
       let (q, o) := isingToQubo (← parseItems h) (← parsePairItems j) (← parseRat? off)
       pure s!"{showPairItems q} {showRat o}"
@@ -383,6 +406,10 @@ def step (d : LBqm Rat) (line : String) : LBqm Rat × String :=
   | "lb_old" :: view :: rest => match vt? view with
     | some view => lbStep d view true rest | none => bad
   -- ---------------------------------------------------------------- C03
+  | ["qmfixl", l, a, o, info, labels, fixed] => pure1 do
+      let m : QmL Rat := { qb := (← parseQMB l a o), info := (← parseInfo info), labels := (← parseLabels labels) }
+      let r := m.fixVariables (← parseItems fixed)
+      pure s!"{if r.2 then "ok" else "err"} {showQMB r.1.qb} {showInfo r.1.info} {showLabels r.1.labels}"
   | ["fix", l, a, o, v, x] => pure1 do
       let m ← parseQMB l a o
       pure (showQMB (m.fixVariable (← v.toNat?) (← parseRat? x)))
